@@ -71,8 +71,12 @@ def expected(spec: Dict, ind, rows: List[Dict]) -> Dict[str, Tuple[List, float]]
     if k == "HLA":
         return {"": ([(a + b) / 2 for a, b in zip(h, l)], 1e-3)}
     if k == "SUPERTREND":
-        st = R.supertrend(h, l, c, ind.period, ind.multiplier)
-        return {f: ([r[j] for r in st], 20 * small) for j, f in enumerate(["trend", "direction", "long", "short"])}
+        # a flip / ratchet decision within the rounding of the stored bands is left open, and so is
+        # everything after it (the two trajectories may stay apart until the next clear flip)
+        st, amb = R.supertrend(h, l, c, ind.period, ind.multiplier, tie=(1 + ind.multiplier) * 1.5e-4)
+        cut = n if amb is None else amb
+        return {f: ([r[j] for r in st[:cut]] + [ANY] * (n - cut), 20 * small)
+                for j, f in enumerate(["trend", "direction", "long", "short"])}
     if k == "STDEVTHRES":
         # true exactly when the input moved by more than multiplier*sigma; sigma is a stored
         # (rounded, incrementally updated) helper, so comparisons within its error are left open
@@ -171,7 +175,7 @@ def falsify(ctx, case: Dict) -> bool:
         for f, (want, tol) in expected(spec, ind, rows).items():
             got = ind.as_list(f"{ind.name}.{f}" if f else None)
             for i, (g, w) in enumerate(zip(got, want)):
-                if w is ANY and g is not None:
+                if w is ANY:
                     continue
                 if (g is None) != (w is None):
                     bad = {"relation": "presence", "field": f, "side": "missing" if g is None else "early"}
